@@ -4,10 +4,12 @@ import (
 	"bytes"
 	"fmt"
 	"os"
+	"path"
 	"path/filepath"
 	"sort"
 	"strings"
 	"sync"
+	"time"
 
 	goverter "github.com/jmattheis/goverter"
 	"github.com/jmattheis/goverter/config"
@@ -237,6 +239,9 @@ func RunC17(run *ev.Run) {
 	wg.Wait()
 	// (ii) argv
 	na, nv := c17Argv(run, base)
+	// (iii) output locations taken by something else: success may not be claimed
+	nb := RunBlockedOutputs(run)
+	na += nb
 	run.Cov["fault_subset_runs"] = states
 	run.Cov["argv_runs"] = na
 	run.Cov["argv_generate_runs"] = nv
@@ -247,7 +252,7 @@ func RunC17(run *ev.Run) {
 	run.Cov["traces_validated_against_impl"] = states + na
 	run.Cov["exhaustive"] = !run.Harness
 	run.Cov["converters"] = nconv
-	run.Cov["rule"] = fmt.Sprintf("(i) %d converters over 2-3 packages, each in one of the states %v (every subset faulty, at directive, signature, conversion and late-setting stage) x pre-existing outputs {none, present, present and corrupted}: real CLI run; a faulty run must exit 1 with a diagnostic on stderr and leave the tree byte-identical, a good run must exit 0 and every output file must equal the in-memory result; (ii) every argv of length <=k over the token menu against an independent model of the flag grammar: help => exit 0, usage error => exit 1 with text, neither may touch the tree; generate => exit 0 or 1, never a crash, and exit 1 leaves the tree unchanged", nconv, c17States)
+	run.Cov["rule"] = fmt.Sprintf("(i) %d converters over 2-3 packages, each in one of the states %v (every subset faulty, at directive, signature, conversion and late-setting stage) x pre-existing outputs {none, present, present and corrupted}: real CLI run; a faulty run must exit 1 with a diagnostic on stderr and leave the tree byte-identical, a good run must exit 0 and every output file must equal the in-memory result; (ii) every argv of length <=k over the token menu against an independent model of the flag grammar: help => exit 0, usage error => exit 1 with text, neither may touch the tree; generate => exit 0 or 1, never a crash, and exit 1 leaves the tree unchanged; (iii) output locations taken by something else (file path is a directory, directory path is a file, output:file names an existing directory; alone and next to an unobstructed package in both pattern orders): exit 0 only if the converter's file was really written", nconv, c17States)
 }
 
 func faultClass(combo []string) string {
@@ -476,4 +481,110 @@ func argvClass(argv []string) string {
 		}
 	}
 	return strings.Join(c, " ")
+}
+
+// ---- blocked output locations: the place a converter must be written to is taken by something else ----
+//
+// C17: "on success every output file is written completely" - so a run that cannot write an output must not exit 0.
+// C13: such a run must terminate with a diagnostic (no hang, no panic).
+
+type blockedCase struct {
+	name  string
+	lines string              // converter-level output settings of the blocked converter
+	block func(t fshist.Tree) // puts the obstacle into the tree
+	want  string              // module-relative path the blocked converter would be written to
+}
+
+func blockedCases() []blockedCase {
+	dir := func(p string) func(fshist.Tree) {
+		return func(t fshist.Tree) {
+			d := p
+			for d != "." && d != "" {
+				t[d] = fshist.Entry{Dir: true, Mode: 0o755}
+				d = path.Dir(d)
+			}
+			t[path.Join(p, "keep.txt")] = fshist.Entry{Data: []byte("x\n"), Mode: 0o644}
+		}
+	}
+	file := func(p string) func(fshist.Tree) {
+		return func(t fshist.Tree) { t[p] = fshist.Entry{Data: []byte("not a directory\n"), Mode: 0o644} }
+	}
+	return []blockedCase{
+		{"default-file-path-is-a-directory", "", dir("conv/generated/generated.go"), "conv/generated/generated.go"},
+		{"default-directory-path-is-a-file", "", file("conv/generated"), "conv/generated/generated.go"},
+		{"output-file-names-an-existing-directory", "// goverter:output:file ./outdir\n// goverter:output:package vx/conv/outdir\n", dir("conv/outdir"), "conv/outdir"},
+		{"output-file-path-is-a-directory", "// goverter:output:file ./gen/x.go\n", dir("conv/gen/x.go"), "conv/gen/x.go"},
+		{"output-directory-path-is-a-file", "// goverter:output:file ./gen/x.go\n", file("conv/gen"), "conv/gen/x.go"},
+		{"output-parent-of-directory-is-a-file", "// goverter:output:file ./a/b/x.go\n", file("conv/a"), "conv/a/b/x.go"},
+		{"same-directory-output-is-a-directory", "// goverter:output:file ./conv_gen.go\n// goverter:output:package vx/conv\n", dir("conv/conv_gen.go"), "conv/conv_gen.go"},
+	}
+}
+
+// RunBlockedOutputs runs every blocked case alone and next to a second, unobstructed package (both pattern orders).
+func RunBlockedOutputs(run *ev.Run) int {
+	base, err := os.MkdirTemp(emit.ScratchRoot(), "verif-blocked-")
+	if err != nil {
+		run.Harness = true
+		return 0
+	}
+	defer os.RemoveAll(base)
+	bin := drive.GoverterBin()
+	types := "type In struct{ A int }\ntype Out struct{ A int }\n"
+	n := 0
+	var mu sync.Mutex
+	var wg sync.WaitGroup
+	sem := make(chan bool, nWorkers)
+	for ci, c := range blockedCases() {
+		for vi, pats := range [][]string{{"./conv"}, {"./conv", "./other"}, {"./other", "./conv"}} {
+			ci, c, vi, pats := ci, c, vi, pats
+			wg.Add(1)
+			sem <- true
+			go func() {
+				defer wg.Done()
+				defer func() { <-sem }()
+				t := fshist.Tree{"go.mod": {Data: []byte("module vx\n\ngo 1.22\n"), Mode: 0o644}, "conv": {Dir: true, Mode: 0o755}, "other": {Dir: true, Mode: 0o755}}
+				t["conv/conv.go"] = fshist.Entry{Data: []byte("package conv\n\n" + types + "\n// goverter:converter\n" + c.lines + "type C interface {\n\tConvert(source In) Out\n}\n"), Mode: 0o644}
+				t["other/other.go"] = fshist.Entry{Data: []byte("package other\n\n" + types + "\n// goverter:converter\ntype O interface {\n\tConvert(source In) Out\n}\n"), Mode: 0o644}
+				c.block(t)
+				dir := filepath.Join(base, fmt.Sprintf("b%d-%d", ci, vi))
+				start := time.Now()
+				after, r, err := fshist.RunInTimeout(bin, t, dir, "", nil, 90*time.Second, append([]string{"gen"}, pats...)...)
+				mu.Lock()
+				defer mu.Unlock()
+				n++
+				if err != nil {
+					fmt.Fprintln(os.Stderr, "HARNESS-ERROR:", err)
+					run.Harness = true
+					return
+				}
+				site := "blocked-output:" + c.name
+				cs := map[string]any{"kind": "blocked-output", "case": c.name, "patterns": pats}
+				run.Outcome(fmt.Sprintf("blocked:%s/exit:%d", map[bool]string{true: "timeout", false: "terminated"}[r.Timeout], r.Exit))
+				switch {
+				case r.Timeout:
+					if run.Prop == "C13" {
+						run.Report(ev.Violation{Site: site + "|hang", Symptom: "hang", Detail: fmt.Sprintf("goverter gen %v did not terminate within %v although only the output location %s is taken by something else", pats, time.Since(start).Round(time.Second), c.want), Case: cs})
+					}
+				case strings.Contains(r.Stderr, "panic:") || strings.Contains(r.Stderr, "goroutine "):
+					if run.Prop == "C13" {
+						run.Report(ev.Violation{Site: site + "|panic", Symptom: "panic", Detail: firstN(r.Stderr, 1500), Case: cs})
+					}
+				case r.Exit == 0:
+					// success claimed: the blocked converter's file must exist as a regular file with generated content
+					e, ok := after[c.want]
+					if run.Prop == "C17" && (!ok || e.Dir || !bytes.HasPrefix(e.Data, []byte("// Code generated by"))) {
+						run.Report(ev.Violation{Site: site + "|exit", Symptom: "success-without-output",
+							Detail: fmt.Sprintf("goverter gen %v exits 0 although %s could not be written (the location is taken by a %s)\nstderr: %q", pats, c.want, map[bool]string{true: "directory", false: "file or missing parent"}[e.Dir], firstN(r.Stderr, 400)), Case: cs})
+					}
+				default:
+					if run.Prop == "C13" && strings.TrimSpace(r.Stderr+r.Stdout) == "" {
+						run.Report(ev.Violation{Site: site + "|empty-diagnostic", Symptom: "empty-diagnostic", Detail: fmt.Sprintf("goverter gen %v exits %d without any diagnostic", pats, r.Exit), Case: cs})
+					}
+				}
+			}()
+		}
+	}
+	wg.Wait()
+	run.Cov["blocked_output_runs"] = n
+	return n
 }
